@@ -43,17 +43,17 @@ Definition st_safe (st : kstate) : Prop := all_safe (writes st) = true /\ all_sa
 Lemma step_safe st o : st_safe st -> st_safe (fst (step st o)).
 Proof.
   intros [W O]. unfold st_safe.
-  destruct o as [a|a|k|r|r|r|k acc|r wk|]; cbn [step].
+  destruct o as [a|a|k th|r|r|r|k acc th|r wk|]; cbn [step].
   9: { cbn [fst writes outs]. rewrite ?app_nil_r, ?W, ?O. split; reflexivity. }
   8: { cbn [fst writes outs]. rewrite ?app_nil_r, ?W, ?O. split; reflexivity. }
   7: { destruct acc; cbn [fst writes outs]; rewrite ?all_safe_app, ?app_nil_r, ?W, ?O; cbn [all_safe forallb];
-       rewrite ?sval_safe by apply odd_dk; split; reflexivity. }
+       rewrite ?sval_safe by apply odd_dk; rewrite ?id_term_safe; split; reflexivity. }
   - cbn [fst writes outs]. rewrite !all_safe_app, W, O. cbn [all_safe forallb].
     rewrite sval_safe by apply odd_dk. rewrite id_term_safe. split; reflexivity.
   - destruct a; cbn [fst writes outs]; rewrite !all_safe_app, W, O; cbn [all_safe forallb];
       rewrite sval_safe by apply odd_dk; split; reflexivity.
   - cbn [fst writes outs]. rewrite !all_safe_app, W, O. cbn [all_safe forallb].
-    rewrite sval_safe by apply odd_dk. split; reflexivity.
+    rewrite sval_safe by apply odd_dk. rewrite ?id_term_safe. split; reflexivity.
   - destruct (nth_error (issued st) r) as [ks|]; [destruct (k_live ks)|]; cbn [fst writes outs];
       rewrite ?all_safe_app, ?app_nil_r, ?W, ?O; cbn [all_safe forallb];
       rewrite ?sval_safe by apply odd_dk; rewrite ?id_term_safe; split; reflexivity.
@@ -88,7 +88,7 @@ Proof.
              (forall x, In x w -> is_sval x) ->
              In v (writes st ++ w) -> is_sval v).
   { intros w Hw I'. apply in_app_or in I'. destruct I' as [I'|I']; [apply H | apply Hw]; exact I'. }
-  destruct o as [a|a|k|r|r|r|k acc|r wk|]; cbn [step] in I.
+  destruct o as [a|a|k th|r|r|r|k acc th|r wk|]; cbn [step] in I.
   9: { cbn [fst writes] in I. eapply G; [|exact I]. intros x []. }
   8: { cbn [fst writes] in I. eapply G; [|exact I]. intros x []. }
   7: { destruct acc; cbn [fst writes] in I; (eapply G; [|exact I]); intros x Hx; cbn in Hx; try contradiction;
@@ -182,3 +182,39 @@ Lemma reopen_nothing st :
   writes (fst (step st Reopen)) = writes st /\ outs (fst (step st Reopen)) = outs st /\
   issued (fst (step st Reopen)) = issued st /\ snd (step st Reopen) = ([], [], true).
 Proof. cbn [step fst snd writes outs issued]. rewrite !app_nil_r. repeat split; reflexivity. Qed.
+
+(* every non-opaque API result is an id (thumbprint of a public key / random or chosen string) or a public key *)
+Definition is_public_out (t : term) : Prop :=
+  (exists k, t = Kdf [Pub k]) \/ (exists p, t = Junk p) \/ (exists k, t = Pub k).
+
+Lemma id_term_public a k p : is_public_out (id_term a k p).
+Proof. destruct a; [left; eexists; reflexivity | right; left; eexists; reflexivity]. Qed.
+
+Lemma step_outs_public st o :
+  (forall t, In t (outs st) -> is_public_out t) -> forall t, In t (outs (fst (step st o))) -> is_public_out t.
+Proof.
+  intros H t I.
+  assert (G : forall w, (forall x, In x w -> is_public_out x) -> In t (outs st ++ w) -> is_public_out t).
+  { intros w Hw I'. apply in_app_or in I'. destruct I' as [I'|I']; [apply H | apply Hw]; exact I'. }
+  assert (P : forall k, is_public_out (Pub k)) by (intro k; right; right; eexists; reflexivity).
+  destruct o as [a|a|k th|r|r|r|k acc th|r wk|]; cbn [step] in I.
+  - cbn [fst outs] in I. eapply G; [|exact I]. intros x [<-|[]]. apply id_term_public.
+  - destruct a; cbn [fst outs] in I; (eapply G; [|exact I]); intros x Hx; cbn in Hx; try contradiction.
+    destruct Hx as [<-|[<-|[]]]; [left; eexists; reflexivity | apply P].
+  - cbn [fst outs] in I. eapply G; [|exact I]. intros x [<-|[]]. apply id_term_public.
+  - destruct (nth_error (issued st) r) as [ks|]; [destruct (k_live ks)|]; cbn [fst outs] in I;
+      (eapply G; [|exact I]); intros x Hx; cbn in Hx; try contradiction. destruct Hx as [<-|[]]. apply id_term_public.
+  - destruct (nth_error (issued st) r) as [ks|]; cbn [fst outs] in I; (eapply G; [|exact I]); intros x [].
+  - destruct (nth_error (issued st) r) as [ks|]; [destruct (k_live ks && k_asym ks)|]; cbn [fst outs] in I;
+      (eapply G; [|exact I]); intros x Hx; cbn in Hx; try contradiction. destruct Hx as [<-|[]]. apply P.
+  - destruct acc; cbn [fst outs] in I; (eapply G; [|exact I]); intros x Hx; cbn in Hx; try contradiction.
+    destruct Hx as [<-|[]]. apply id_term_public.
+  - cbn [fst outs] in I. eapply G; [|exact I]. intros x [].
+  - cbn [fst outs] in I. eapply G; [|exact I]. intros x [].
+Qed.
+
+Lemma run_outs_public ops : forall st,
+  (forall t, In t (outs st) -> is_public_out t) -> forall t, In t (outs (run st ops)) -> is_public_out t.
+Proof.
+  induction ops as [|o r IH]; intros st H; cbn; [exact H|]. apply IH. apply step_outs_public. exact H.
+Qed.
